@@ -4,6 +4,8 @@
 set -u
 D=$(readlink -f "$1")
 WT=/tmp/wt/val
+# the scratch worktree is created on demand; remove it when done: git -C /repo worktree remove --force /tmp/wt/val
+[ -d $WT ] || git -C /repo worktree add --detach -q $WT HEAD
 RUN=/tmp/wt-run/val; mkdir -p $RUN
 git -C $WT checkout -q -- . ; git -C $WT clean -fdq
 cd $RUN && PYTHONPATH=$WT timeout 300 /venv/bin/python $D/demo.py > $D/val_clean.txt 2>&1; RC_CLEAN=$?
